@@ -26,6 +26,9 @@ import (
 	"net/url"
 	"os"
 	"strings"
+	"time"
+
+	"github.com/gorilla/websocket"
 
 	"github.com/ccbrown/api-fu/graphql"
 
@@ -428,7 +431,7 @@ func (h *harness) checkWSEnv(e WSEnv) *failure {
 
 // doWSFrame sends one frame on a fresh connection, then a sentinel operation; it reports what the
 // server did about the frame: "ignored", "closed <code> <text>", or the canonical response content.
-func (w *world) doWSFrame(e WSEnv) Obs {
+func (w *world) doWSFrame(e WSEnv, expectClose bool) Obs {
 	w.resetLogs()
 	c, err := dialWS(w.srv.URL, e.Kind, e.DidInit)
 	if err != nil {
@@ -460,6 +463,17 @@ func (w *world) doWSFrame(e WSEnv) Obs {
 		}
 		if f.ID == sentinelID {
 			if f.Type == "complete" {
+				if expectClose {
+					// the close frame is written by the writer goroutine, possibly after the sentinel's
+					// frames: give it time (the connection must close on the unchanged code)
+					c.conn.SetReadDeadline(time.Now().Add(3 * time.Second))
+					if _, _, err := c.conn.ReadMessage(); err != nil {
+						if _, isClose := err.(*websocket.CloseError); isClose {
+							o.Resp = describeWSErr(err)
+							break
+						}
+					}
+				}
 				switch {
 				case len(payloads) == 0 && !completed:
 					o.Resp = "ignored"
@@ -497,8 +511,8 @@ func (w *world) doWSFrame(e WSEnv) Obs {
 // checkWSAPI (A4): the frame through API.ServeGraphQLWS of one configuration.
 func (h *harness) checkWSAPI(e WSEnv, fl Flags, oracleOnly bool) *failure {
 	w := h.world(fl)
-	o := w.doWSFrame(e)
 	exp := expectedWS(e)
+	o := w.doWSFrame(e, strings.HasPrefix(exp, "(close"))
 	desc := fmt.Sprintf("[%s] %s didInit=%v frame %q", fl, e.Kind, e.DidInit, e.Frame)
 	var f *failure
 	switch {
@@ -920,7 +934,7 @@ func (h *harness) runCase(cs Case, verbose bool) *failure {
 		f := h.checkWSAPI(*cs.WS, fl, false)
 		h.run.Case("ws-api:"+fl.String()+cs.WS.Kind+fmt.Sprint(cs.WS.DidInit)+cs.WS.Frame, true)
 		if verbose {
-			fmt.Printf("  implementation: %s\n", h.world(fl).doWSFrame(*cs.WS).key())
+			fmt.Printf("  implementation: %s\n", h.world(fl).doWSFrame(*cs.WS, strings.HasPrefix(expectedWS(*cs.WS), "(close")).key())
 			if m, ok := h.ask("(serve-ws " + cfgSexp(fl) + " " + cs.WS.absSexp() + ")"); ok {
 				fmt.Printf("  model:          %s\n", m)
 			}
